@@ -103,11 +103,15 @@ def slices(tier):
                 ("iter", dict(ops="OpsIter", pool="Pool2", it="It3", maxc=3, maxt=0)),
                 ("iter3", dict(ops="OpsIter", pool="Pool3", it="It2", maxc=3, maxt=0)),
                 ("held", dict(ops="OpsIter", pool="Pool2", it="It1", maxc=3, maxt=2)),
-                ("live", dict(ops="OpsLive", pool="Pool2", maxc=3, maxt=2)),
+                ("live", dict(ops="OpsLive", pool="Pool2", maxc=2, maxt=2)),
+                ("live3", dict(ops="OpsLive", pool="Pool1", maxc=3, maxt=2)),
+                ("live1", dict(ops="OpsLive", pool="Pool2", maxc=3, maxt=1)),
                 ("view2", dict(ops="OpsView", pool="Pool2", maxc=2, maxt=2, rots="Rots2", vecs="Vecs2", facs="Facs2", ws="Ws2")),
                 ("view3", dict(ops="OpsView", pool="Pool2", maxc=3, maxt=2)),
                 ("view1", dict(ops="OpsView", pool="Pool2", maxc=1, maxt=3, rots="Rots2", vecs="Vecs2", facs="Facs2", ws="Ws2")),
-                ("copy", dict(ops="OpsCopy", pool="Pool2", maxc=2, maxt=2)),
+                ("copy", dict(ops="OpsCopy", pool="Pool2", maxc=1, maxt=2)),
+                ("copyv", dict(ops="OpsCopyV", pool="Pool2", maxc=2, maxt=2)),
+                ("copyx", dict(ops="OpsCopyX", pool="Pool2", maxc=2, maxt=2)),
                 ("io", dict(ops="OpsIO", pool="Pool2x0", maxc=3))]
     return [("grow", dict(ops="OpsGrow", pool="Pool2x0", maxc=3)),
             ("iter", dict(ops="OpsIter", pool="Pool2", it="It2", maxc=3, maxt=0)),
@@ -121,7 +125,8 @@ def slices(tier):
 def mixed(tier):
     """models with the action groups together (invariants only, not replayed)"""
     if tier == "thorough":
-        return [dict(ops="OpsMix", pool="Pool2", it="It1", maxc=2, maxt=2), dict(ops="OpsNoCopy", pool="Pool2", it="It2", maxc=2, maxt=1)]
+        return [dict(ops="OpsNoCopy", pool="Pool2", it="It1", maxc=2, maxt=2), dict(ops="OpsMix", pool="Pool2", it="It1", maxc=2, maxt=1),
+                dict(ops="OpsNoCopy", pool="Pool2", it="It2", maxc=2, maxt=1)]
     return [dict(ops="OpsNoCopy", pool="Pool2", it="It1", maxc=2, maxt=1)]      # the copy group has its own slice models
 
 
